@@ -155,7 +155,7 @@ PROPS = {
         shards={"quick": 8, "thorough": 16},
     ),
     "C16": dict(
-        pkg="./fullrt", test="TestVerifC16", model="C16", verdict="C16v", level="proof", diff_is_failure=False, stateless=True, also=["C16c"],
+        pkg="./fullrt", test="TestVerifC16", model="C16", verdict="C16v", level="proof", diff_is_failure=False, stateless=True, also=["C16c", "C16s"],
         accept=lambda m, o: m == "-" or all((" " + t + " ") in (" " + o + " ") for t in m.split(" ")),
         rule="a case is one operation on a real NewFullRT client (fake host, a crawler that reports a generated peer set "
              "with 1-3 addresses per peer in shared IPv4 /16 groups and the unknown-ASN IPv6 group, public options only): "
@@ -172,6 +172,13 @@ PROPS = {
         pkg="./crawler", test="TestVerifC16c", model="C16c", verdict="C16cv", level="proof", diff_is_failure=False, stateless=True,
         rule="a crawl of the real DefaultCrawler (scripted sender, parallelism 1/2/3/8) on a generated topology with failing, "
              "undialable and silent-list peers, seeds with duplicates and without addresses", trusted=[], shards={"quick": 4, "thorough": 16},
+    ),
+    # sibling harness of C16: closest-peers queries racing with the swap of a finished crawl (real clock, real goroutines)
+    "C16s": dict(
+        pkg="./fullrt", test="TestVerifC16s", model="C16s", level="proof", diff_is_failure=True, stateless=True,
+        rule="readers call GetClosestPeers while an alternating crawler swaps two overlapping peer sets in back to back; every "
+             "answer must be the K nearest of one of the two crawls", trusted=["timing decides whether a mixture is met; none can be reported falsely"],
+        shards={"quick": 1, "thorough": 2}, gomaxprocs="16",
     ),
     "C11": dict(
         pkg="./internal/net", test="TestVerifC11", model="C11", verdict="C11v", level="proof", diff_is_failure=False,
